@@ -215,13 +215,17 @@ func init() {
 // implementation uses when it renders keys.
 var collisionPool = []string{"a", "b", "c", "a.b", "b.c", "a.b.c", "a.", ".a", ".", "..", "a|b", "[1 2]", "[1", "1", "1.0", "10", "9", " a", "a ", "%v", "%!v(MISSING)", "é", "a\x00b"}
 
-const ruleC13 = "rapid state machine: hash-only and hash+range tables with S/N/B key types; keys drawn from a pool built from the implementation's own separator characters ('.', '|', '[', ' ', near collisions such as (\"a.b\",\"c\") vs (\"a\",\"b.c\"), prefixes, numerals) over Put / Get / Delete / UpdateItem, plus requests whose key lacks an attribute or has it with the wrong type (every operation) and updates that SET / REMOVE / ADD a key attribute; both SDK clients against a model keyed by the tuple of key values: distinct keys never overwrite each other, malformed keys give a validation error and change nothing, after every successful UpdateItem the stored key attributes equal the addressing key. Non-trivial = history with two distinct keys whose renderings share a prefix or contain a separator, or an update that targets a key attribute; distinct = hash of the operation list."
+const ruleC13 = "rapid state machine: hash-only and hash+range tables with S/N/B key types; keys drawn from a pool built from the implementation's own separator characters ('.', '|', '[', ' ', near collisions such as (\"a.b\",\"c\") vs (\"a\",\"b.c\"), prefixes, numerals) over Put / Get / Delete / UpdateItem, plus requests whose key lacks an attribute or has it with the wrong type (every operation) and updates that SET / REMOVE / ADD a key attribute; both SDK clients against a model keyed by the tuple of key values: distinct keys never overwrite each other, malformed keys give a validation error and change nothing, after every successful UpdateItem the stored key attributes equal the addressing key. One case in eight is a dense key space instead: every string (S and B parts) of length 1..2 or 1..3 over an alphabet of 2-3 characters drawn from separator, escape, control and ordinary characters (two thirds of them containing the implementation's own separator '.'), or 4-10 numbers that differ only far beyond float64 / six-decimal precision (N parts), as hash-only or as the full hash x range product (up to 1521 keys), each stored with its own payload on both clients, read back by GetItem and counted by Scan, then every third key deleted and all keys read again. Non-trivial = history with two distinct keys whose renderings share a prefix or contain a separator, or an update that targets a key attribute; distinct = hash of the operation list."
 
 // TestC13 decides property C13.
 func TestC13(t *testing.T) {
 	st := stats.For("C13")
 	st.SetRule(ruleC13)
 	rapid.Check(t, func(rt *rapid.T) {
+		if rapid.IntRange(0, 7).Draw(rt, "denseKeySpace") == 0 {
+			propC13Dense(rt, st)
+			return
+		}
 		w := newWorld("C13", worldCfg{V1: true, V2: true, WhiteBox: true, GetKeys: true})
 		w.drawCheckPeriod(rt)
 		s := drawSchema(rt, "tbl", schemaCfg{KeyTypes: []string{"S", "S", "S", "N", "B"}, MaxIndexes: 1})
